@@ -178,7 +178,7 @@ def judge(texts, tps, ticks, seen, order_bad, mon, form):
                 mon.fail("delivered-beyond-end", f"'{txt}' @ {tps}: arrival tick {want} is past the run's end {ticks} but it was delivered in {got}", **detail)
             continue
         if not got:
-            mon.fail("never-delivered", f"'{txt}' @ {tps} ticks/s: due in tick {want} of {ticks}, never delivered", **detail)
+            mon.fail("never-delivered", f"'{txt}' @ {tps} ticks/s: due in tick {want} of {ticks}, never delivered", run_ticks=ticks, **detail)
             continue
         d = got[0]
         mon.count("deliveries_compared")
